@@ -199,3 +199,51 @@ c.ensure('a_uniquely_matching_constant_name_yields_the_constant_itself', lambda 
         _matching_const(x)[0]['result'].len == 1,
         x.result.e == M(x.old['_CONSTANTS']).val[_matching_const(x)[0]['result'].arr[0]])))
 register(c)
+
+
+# ---- ConfigurableReference.initialize (C04, C15) ----------------------------------------------------
+# What ties a reference as written (`@a/b/name`) to the scope it later runs under: the selector is
+# the part after the last '/', the scope list is everything before it, the configurable is what
+# the CURRENT parse context resolves the selector to, and the callable stored for later delivery is
+# `_decorate_with_scope(configurable, exactly those scopes)`.
+from contracts.c_references import CRef
+i_ = z3.Int('i!q')
+from contracts.c_binding_api import gc_result, OptCfg, _top_ctx
+
+c = Contract('config.py::ConfigurableReference.initialize', ['C04', 'C15'])
+c.self_kind = CRef
+c.modifies = set(REG_FIELDS)
+c.modifies_self = ['_scopes', '_selector', '_configurable', '_scoped_configurable_fn']
+c.require('a_parse_context_exists', lambda x: x.old['_PARSE_CONTEXTS'].len >= 1)
+
+
+def _parts(x):
+  return world.str_split(x.self_old.fields['_scoped_selector'].e, sym.str_lit('/'))
+
+
+def _resolved(x):
+  sel = _parts(x).arr[_parts(x).len - 1]
+  return OptCfg.unbox(gc_result(_top_ctx(x.old), sel, x.old['REGISTRATION'].e,
+                                SelectorMap.box(x.old['_REGISTRY'])))
+
+
+c.ensure('selector_is_the_last_slash_component_and_the_scopes_are_the_rest', lambda x: z3.And(
+    x.self_new.fields['_selector'].e == _parts(x).arr[_parts(x).len - 1],
+    x.self_new.fields['_scopes'].len == _parts(x).len - 1,
+    sym.forall([i_], z3.Implies(z3.And(0 <= i_, i_ < _parts(x).len - 1),
+                                x.self_new.fields['_scopes'].arr[i_] == _parts(x).arr[i_]),
+               patterns=[x.self_new.fields['_scopes'].arr[i_]])))
+c.ensure('bound_to_what_the_current_parse_context_resolves_the_selector_to', lambda x: z3.And(
+    z3.Not(_resolved(x).is_none),
+    x.self_new.fields['_configurable'].e == sym.to_val(_resolved(x).inner)))
+c.ensure('delivery_runs_under_exactly_the_written_scopes', lambda x: (
+    x.self_new.fields['_scoped_configurable_fn'].e == z3.If(
+        x.self_new.fields['_scopes'].len > 0,
+        scoped_version(Configurable.box(_resolved(x).inner),
+                       ScopeList.box(x.self_new.fields['_scopes'])),
+        _resolved(x).inner.fields['wrapper'].e)))
+c.raise_case('unknown_name', 'ValueError', when=lambda x: z3.BoolVal(x.exc.origin == 'stmt'),
+             ensures=[
+    ('only_if_the_context_does_not_resolve_the_selector', lambda x: _resolved(x).is_none)])
+c.may_raise_other = True          # ambiguous name (KeyError), import errors under dynamic registration
+register(c)
